@@ -1230,8 +1230,14 @@ def run_impl(case):
             if k[0] == "x":
                 if result == "ok":
                     x_pending = True
+                    if k == "xldefault":
+                        # directories moved: the files keep bytes and mtimes under new paths
+                        hv = lambda v: (v[0], repr(v[1]))
+                        where = {(rel.split("/")[-1], hv(v)): rel for rel, v in impl.files.items()}
+                        oracle.same_mtime = {where.get((rel.split("/")[-1], hv(files_before[rel])), rel)
+                                             for rel in oracle.same_mtime if rel in files_before}
                     # files whose bytes changed while the mtime stayed: detection is not demanded for them
-                    for rel in set(files_before) | set(impl.files):
+                    for rel in (set(files_before) | set(impl.files)) if k != "xldefault" else ():
                         a, b = files_before.get(rel), impl.files.get(rel)
                         if a is not None and b is not None and a[0] != b[0] and a[1] == b[1]:
                             oracle.same_mtime.add(rel)
